@@ -52,7 +52,10 @@ func (h *H) phaseGolden() {
 			// the record type itself changed since the corpus was generated (field added, renamed,
 			// retyped): that is reported by the type-table tie; comparing renderings would only
 			// restate it
+			// … but the corpus no longer covers that record kind: a lost tie is a harness failure
+			// (regenerate golden.go with C07_DUMP_GOLDEN=1 once the type change is accepted)
 			res.Hit("golden:skipped-type-changed:" + gr.name)
+			res.Fatalf("golden corpus is stale for %s: the record type changed since the corpus was generated", gr.name)
 			continue
 		}
 		res.Hit("golden:" + gr.name)
